@@ -590,8 +590,10 @@ func Run(r *fw.Run) {
 	depth := 5
 	budget := 300 * time.Second
 	if !r.Quick() {
-		depth = 8
-		budget = 40 * time.Minute
+		// thorough: one level deeper from every pre-populated seed, two levels deeper from the empty engine (searched last: a
+		// background run showed that depth 8 from the empty engine alone uses up any budget and starves the other seeds)
+		depth = 6
+		budget = 60 * time.Minute
 	}
 	r.SetBudget(budget)
 	r.Bounds["max_depth"] = depth
@@ -611,6 +613,9 @@ func Run(r *fw.Run) {
 	for i := 0; i < len(sd)-1; i++ {
 		order = append(order, i)
 	}
+	if !r.Quick() {
+		order = append(append([]int{len(sd) - 1}, order[2:]...), 0)
+	}
 	for _, si := range order {
 		seed := sd[si]
 		t0 := time.Now()
@@ -629,6 +634,9 @@ func Run(r *fw.Run) {
 		}
 		if si == len(sd)-1 {
 			seedDepth = depth + 3 // the second alphabet is small: its seed is searched deeper
+		}
+		if !r.Quick() && si == 0 {
+			seedDepth = depth + 1
 		}
 		// level d holds the candidate histories parents x alphabet (level 0: the seed itself). They are never materialised
 		// as one slice (level 8 of the thorough tier has some 3e8 of them): a level is evaluated chunk by chunk, in
